@@ -74,7 +74,7 @@ func harnessC08Hooks() {
 	ctx := context.WithValue(base, key, val)
 
 	n := vInt(0, N)
-	cancelAt := vInt(-2, n-1) // -2 never, -1 before the call, k>=0: handler k cancels
+	cancelAt := vInt(-2, n-1)   // -2 never, -1 before the call, k>=0: handler k cancels
 	panicAfterCancel := vBool() // the cancelling handler also panics afterwards
 	async := make([]bool, n)
 	ctxAware := make([]bool, n)
